@@ -30,7 +30,8 @@ SPHERE_GETTERS_3D = ("array", "array_full", "adjacency", "borders", "distances",
 SPHERE_GETTERS_4D = ("array", "array_full", "adjacency", "borders", "distances", "volumes", "hull_measures")
 FULL_GETTERS = ("full_array", "total_volumes", "full_adjacency", "full_borders", "full_distances",
                 "position_volumes", "position_adjacency", "position_borders", "position_distances",
-                "position_array")
+                "position_array", "full_adjacency_only_position", "full_adjacency_only_orientation",
+                "full_prefactors", "body_rotations", "between_radii")
 
 
 # ---------------------------------------------------------------------------------------------------------------------
@@ -90,6 +91,16 @@ def call_getter(obj, spec: dict, getter: str):
             return obj.get_position_grid().get_distances_of_position_grid()
         if getter == "position_array":
             return obj.get_position_grid().get_position_grid_as_array()
+        if getter == "full_adjacency_only_position":
+            return obj.get_full_adjacency(only_position=True)
+        if getter == "full_adjacency_only_orientation":
+            return obj.get_full_adjacency(only_orientation=True)
+        if getter == "full_prefactors":
+            return obj.get_full_prefactors()
+        if getter == "body_rotations":
+            return obj.get_body_rotations().as_quat()
+        if getter == "between_radii":
+            return obj.get_between_radii()
     raise HarnessError(f"unknown getter {getter} for {spec}")
 
 
